@@ -15,8 +15,6 @@ Definition peer_prov (ts1 ts2 : N) (h1 h2 : list phop) : prov :=
   of_slices [peer_sl1 ts1 h1; peer_sl2 ts2 h2].
 
 Section Peer.
-Variable mac : N -> N -> N -> N -> N -> N -> list N.
-Variable t : topology.
 Variables ts1 ts2 : N.
 Variables h1 h2 : list phop.
 
@@ -75,6 +73,48 @@ Lemma crosses1 k : (k < m1)%nat -> crosses p k = true.
 Proof. intros H. unfold crosses. rewrite peer1 by assumption. apply orb_true_r. Qed.
 Lemma crosses2 j : (j < m2)%nat -> crosses p (m1 + j) = true.
 Proof. intros H. unfold crosses. rewrite peer2 by assumption. apply orb_true_r. Qed.
+
+(** * The interface list *)
+Lemma fpair1 i : (S i < m1)%nat -> fpair p i = pair_at sl1 (nth i h1 dhop) (nth (S i) h1 dhop).
+Proof.
+  intros H. unfold fpair, ia, tr_eg, tr_in. rewrite crosses1, !cons1, !hop1 by lia. reflexivity.
+Qed.
+
+Lemma fpair2 j : (S j < m2)%nat -> fpair p (m1 + j) = pair_at sl2 (nth j h2 dhop) (nth (S j) h2 dhop).
+Proof.
+  intros H. unfold fpair, ia, tr_eg, tr_in. rewrite crosses2 by lia.
+  replace (S (m1 + j)) with (m1 + S j)%nat by lia. rewrite !cons2, !hop2 by lia. reflexivity.
+Qed.
+
+Lemma fpair_junc : (1 <= m1)%nat -> (1 <= m2)%nat ->
+  fpair p (m1 - 1) = [(ph_ia (last h1 dhop), ph_in (last h1 dhop)); (ph_ia (hd dhop h2), ph_in (hd dhop h2))].
+Proof.
+  intros L1 L2. unfold fpair, ia, tr_eg, tr_in. rewrite crosses1, cons1, hop1 by lia.
+  replace (S (m1 - 1)) with (m1 + 0)%nat by lia. rewrite cons2, hop2 by lia.
+  rewrite nth_last by (intros X; rewrite X in L1; cbn in L1; lia).
+  destruct h2; reflexivity.
+Qed.
+
+Theorem interfaces_peer : (1 <= m1)%nat -> (1 <= m2)%nat ->
+  interfaces p = pairs_ifs sl1 h1 ++
+    [(ph_ia (last h1 dhop), ph_in (last h1 dhop)); (ph_ia (hd dhop h2), ph_in (hd dhop h2))] ++
+    pairs_ifs sl2 h2.
+Proof.
+  intros L1 L2. rewrite interfaces_fpair, pp_n, !pairs_ifs_seq.
+  replace (m1 + m2 - 1)%nat with ((m1 - 1) + (1 + (m2 - 1)))%nat by lia.
+  rewrite seq_app, flat_map_app, seq_app, flat_map_app. cbn [seq flat_map Nat.add]. rewrite app_nil_r.
+  rewrite fpair_junc by assumption. f_equal; [|f_equal].
+  - apply flat_map_ext_in'. intros i Hi. apply in_seq in Hi. apply fpair1. lia.
+  - match goal with |- context [seq ?s (m2 - 1)] => replace s with (m1 + 0)%nat by lia end.
+    assert (G : forall c s, flat_map (fpair p) (seq (m1 + s) c) =
+                            flat_map (fun j => fpair p (m1 + j)) (seq s c)).
+    { induction c as [|c IH]; intros s; [reflexivity|]. cbn [seq flat_map]. f_equal.
+      replace (S (m1 + s)) with (m1 + S s)%nat by lia. apply IH. }
+    rewrite G. apply flat_map_ext_in'. intros j Hj. apply in_seq in Hj. apply fpair2. lia.
+Qed.
+
+Variable mac : N -> N -> N -> N -> N -> N -> list N.
+Variable t : topology.
 
 (** * Slice-level well-formedness *)
 Record wf_peer : Prop := {
@@ -176,45 +216,6 @@ Proof.
         rewrite Fa, Ff, Nb, Rm, Lt, Ch, !N.eqb_refl. reflexivity.
   - apply forallb_forall. intros k Hk. apply in_seq in Hk. apply negb_true_iff, N.eqb_neq. apply Src; lia.
   - apply forallb_forall. intros k Hk. apply in_seq in Hk. apply negb_true_iff, N.eqb_neq. apply Dst; lia.
-Qed.
-
-(** * The interface list *)
-Lemma fpair1 i : (S i < m1)%nat -> fpair p i = pair_at sl1 (nth i h1 dhop) (nth (S i) h1 dhop).
-Proof.
-  intros H. unfold fpair, ia, tr_eg, tr_in. rewrite crosses1, !cons1, !hop1 by lia. reflexivity.
-Qed.
-
-Lemma fpair2 j : (S j < m2)%nat -> fpair p (m1 + j) = pair_at sl2 (nth j h2 dhop) (nth (S j) h2 dhop).
-Proof.
-  intros H. unfold fpair, ia, tr_eg, tr_in. rewrite crosses2 by lia.
-  replace (S (m1 + j)) with (m1 + S j)%nat by lia. rewrite !cons2, !hop2 by lia. reflexivity.
-Qed.
-
-Lemma fpair_junc : (1 <= m1)%nat -> (1 <= m2)%nat ->
-  fpair p (m1 - 1) = [(ph_ia (last h1 dhop), ph_in (last h1 dhop)); (ph_ia (hd dhop h2), ph_in (hd dhop h2))].
-Proof.
-  intros L1 L2. unfold fpair, ia, tr_eg, tr_in. rewrite crosses1, cons1, hop1 by lia.
-  replace (S (m1 - 1)) with (m1 + 0)%nat by lia. rewrite cons2, hop2 by lia.
-  rewrite nth_last by (intros X; rewrite X in L1; cbn in L1; lia).
-  destruct h2; reflexivity.
-Qed.
-
-Theorem interfaces_peer : (1 <= m1)%nat -> (1 <= m2)%nat ->
-  interfaces p = pairs_ifs sl1 h1 ++
-    [(ph_ia (last h1 dhop), ph_in (last h1 dhop)); (ph_ia (hd dhop h2), ph_in (hd dhop h2))] ++
-    pairs_ifs sl2 h2.
-Proof.
-  intros L1 L2. rewrite interfaces_fpair, pp_n, !pairs_ifs_seq.
-  replace (m1 + m2 - 1)%nat with ((m1 - 1) + (1 + (m2 - 1)))%nat by lia.
-  rewrite seq_app, flat_map_app, seq_app, flat_map_app. cbn [seq flat_map Nat.add]. rewrite app_nil_r.
-  rewrite fpair_junc by assumption. f_equal; [|f_equal].
-  - apply flat_map_ext_in'. intros i Hi. apply in_seq in Hi. apply fpair1. lia.
-  - match goal with |- context [seq ?s (m2 - 1)] => replace s with (m1 + 0)%nat by lia end.
-    assert (G : forall c s, flat_map (fpair p) (seq (m1 + s) c) =
-                            flat_map (fun j => fpair p (m1 + j)) (seq s c)).
-    { induction c as [|c IH]; intros s; [reflexivity|]. cbn [seq flat_map]. f_equal.
-      replace (S (m1 + s)) with (m1 + S s)%nat by lia. apply IH. }
-    rewrite G. apply flat_map_ext_in'. intros j Hj. apply in_seq in Hj. apply fpair2. lia.
 Qed.
 
 End Peer.
